@@ -71,6 +71,15 @@ func (f *FuncCFG) WorldsFocused(spec *FactSpec, extra []Fact, entry []Fact, focu
 	return f.worlds(spec, extra, entry, focus, true)
 }
 
+// WorldsFocusedDims additionally restricts the tracked atoms to the given dimensions
+// (K/WK for known-ness, N for nullness, M/DM for marks): the three bits are independent, so a
+// question about one of them needs only its own atoms — which keeps long alias chains under the limit.
+func (f *FuncCFG) WorldsFocusedDims(spec *FactSpec, extra []Fact, entry []Fact, focus []string, dims []string) *WorldResult {
+	f.dimFilter = dims
+	defer func() { f.dimFilter = nil }()
+	return f.worlds(spec, extra, entry, focus, true)
+}
+
 func (f *FuncCFG) worlds(spec *FactSpec, extra []Fact, entry []Fact, focus []string, only bool) *WorldResult {
 	r := &WorldResult{f: f, spec: spec, idx: map[atomID]int{}, full: true}
 	seen := map[atomID]bool{}
@@ -161,9 +170,21 @@ func (f *FuncCFG) worlds(spec *FactSpec, extra []Fact, entry []Fact, focus []str
 	if only {
 		var keep []atomID
 		for _, a := range atoms {
-			if isFocus(a) {
-				keep = append(keep, a)
+			if !isFocus(a) {
+				continue
 			}
+			if f.dimFilter != nil && !strings.HasPrefix(a.Dim, "kind=") {
+				ok := false
+				for _, d := range f.dimFilter {
+					if a.Dim == d {
+						ok = true
+					}
+				}
+				if !ok {
+					continue
+				}
+			}
+			keep = append(keep, a)
 		}
 		atoms = keep
 	}
